@@ -178,6 +178,8 @@ def check_model(model, globals0, limit=LIMIT, validate=True, hosts=None):
         for how in ('no-globals-member', 'no-globals-member', 'no-options'):
             if how == 'no-options' and b0[0][0] == 'runtime-error' and b0[0][1].startswith('Exceeded'):
                 continue        # (without options the default budget of 1e9 statements applies: not run)
+            if how == 'no-options' and _no_options_hangs[0]:
+                continue        # (already reported in this process: every further such run would cost its 10 s deadline)
             logs = []
             opts = {'logFn': lambda m: logs.append(('log', m)), 'maxStatements': limit} if how == 'no-globals-member' else None
             try:
@@ -186,6 +188,7 @@ def check_model(model, globals0, limit=LIMIT, validate=True, hosts=None):
                 res = ('ok', _with_deadline(10.0, lambda: impl.bs.execute_script(model, opts) if opts is not None else impl.bs.execute_script(model)))
             except CaseTimeout:
                 res = ('host-exception', 'still running after 10 s')
+                _no_options_hangs[0] = True
             except impl.bs.RuntimeError as e:
                 res = ('runtime-error', str(e))
             except Exception as e:  # pylint: disable=broad-except
@@ -198,6 +201,7 @@ def check_model(model, globals0, limit=LIMIT, validate=True, hosts=None):
 
 
 _counter = [0]
+_no_options_hangs = [False]
 
 
 def _run(model, opts):
